@@ -1489,7 +1489,7 @@ output_3byte_vex_opcode (OrcCompiler *p, const OrcX86Insn *xinsn)
         byte2 |= orc_vex_get_rex (p, xinsn->dest, 0, xinsn->src[1]);
         break;
       case ORC_X86_INSN_TYPE_SSEM_SSE:
-        byte2 |= orc_vex_get_rex (p, xinsn->src[1], 0, xinsn->dest);
+        byte2 |= orc_vex_get_rex (p, xinsn->dest, 0, xinsn->src[1]);
         break;
       case ORC_X86_INSN_TYPE_NONE:
         break;
